@@ -1,4 +1,5 @@
 import Exetera.Lemmas.GroupByIndexed
+import Exetera.Lemmas.GroupByConservative
 /-!
 # C07 — group-by results equal the group-wise reference computation
 
@@ -262,6 +263,31 @@ theorem sorted_hint_irrelevant_agg (agg : Agg) (keys : List KeyCol) (targets : L
 example : groupby .repaired [⟨castDec, [9, 10, 10]⟩, ⟨id, [1, 0, 0]⟩] true = groupby .repaired [⟨castDec, [9, 10, 10]⟩, ⟨id, [1, 0, 0]⟩] false := rfl
 example : RowsSorted (keyRows 3 (cols [⟨castDec, [9, 10, 10]⟩, ⟨id, [1, 0, 0]⟩])) := by simp [RowsSorted, keyRows, cols, tupleLt]
 example : groupby .repaired [⟨id, [0, 0, 1, 1, 1]⟩] true = groupby .repaired [⟨id, [0, 0, 1, 1, 1]⟩] false := rfl
+
+/-! ## fix D20 changes nothing where the stacked code was right -/
+
+/-- **the repair is conservative**: on key columns whose stacking casts are faithful the repaired `groupby` (every key
+    column compared in its own dtype) hands to count / min / max / first / last / distinct exactly the grouping — the same
+    sort index or `None`, the same span array — that the as-found stacked `groupby` handed to them, for every value of the
+    hint (truthful or not); hence every aggregate, every written key column and every error is the same. -/
+theorem stacked_eq_columnwise_on_faithful_keys (keys : List KeyCol) (hint : Bool) (n : Nat) (hframe : Frame keys n)
+    (hcast : Faithful keys) :
+    groupbyStacked .repaired keys hint = groupby .repaired keys hint := by
+  obtain ⟨k0, ks, rfl, hrect⟩ := frame_cases hframe
+  exact groupbyStacked_eq_groupbyCols k0 ks hint n hrect hcast
+
+/-- in particular for a single key and for compound keys of ONE dtype (numpy promotes nothing: all casts are `id`) -/
+theorem repair_unobservable_for_one_dtype (keys : List KeyCol) (hint : Bool) (n : Nat) (hframe : Frame keys n)
+    (hdtype : SameDtype keys) :
+    groupbyStacked .repaired keys hint = groupby .repaired keys hint :=
+  stacked_eq_columnwise_on_faithful_keys keys hint n hframe (same_dtype_faithful hdtype)
+
+-- an unsorted two-key frame of one dtype with an UNtruthful hint: both variants return the spans of the frame as it stands
+example : groupbyStacked .repaired [⟨id, [1, 0, 1, 1]⟩, ⟨id, [5, 7, 7, 7]⟩] true = .ok ⟨none, [0, 1, 2, 4]⟩ ∧
+    groupby .repaired [⟨id, [1, 0, 1, 1]⟩, ⟨id, [5, 7, 7, 7]⟩] true = .ok ⟨none, [0, 1, 2, 4]⟩ := ⟨rfl, rfl⟩
+-- … and the hypothesis cannot be dropped: D20's witness (as found one span, repaired the frame is sorted first)
+example : groupbyStacked .repaired [⟨castF64, [9007199254740993, 9007199254740992, 9007199254740993]⟩, ⟨id, [0, 0, 0]⟩] false =
+    .ok ⟨none, [0, 3]⟩ := rfl
 
 /-! ## the specification determines the result; Session.aggregate_* -/
 
